@@ -482,6 +482,37 @@ func (g *grammar) analyse() {
 	}
 }
 
+// capHead: may a capture begin before the expression consumed input (least fixpoint over rules in capTab)
+func (g *grammar) capHead(e *expr, tab []bool) bool {
+	switch e.k {
+	case kCap:
+		return true
+	case kCall:
+		return tab[e.rule]
+	case kSeq:
+		return g.capHead(e.a, tab) || (g.nullable(e.a) && g.capHead(e.b, tab))
+	case kAlt:
+		return g.capHead(e.a, tab) || g.capHead(e.b, tab)
+	case kStar, kPlus, kOpt:
+		return g.capHead(e.a, tab)
+	}
+	return false
+}
+
+func (g *grammar) capTab() []bool {
+	tab := make([]bool, len(g.rules))
+	for changed := true; changed; {
+		changed = false
+		for i, r := range g.rules {
+			if !tab[i] && g.capHead(r.body, tab) {
+				tab[i] = true
+				changed = true
+			}
+		}
+	}
+	return tab
+}
+
 func (e *expr) lean() string {
 	switch e.k {
 	case kEps:
@@ -567,6 +598,19 @@ func (g *grammar) leanModule() string {
 			p(", ")
 		}
 		p("%d", r)
+	}
+	p("]\n\n")
+	p("/-- capture-at-start table (re-checked by `Peg.capOK`) -/\n")
+	p("def capTab : List Bool := [")
+	for i, b := range g.capTab() {
+		if i > 0 {
+			p(", ")
+		}
+		if b {
+			p("true")
+		} else {
+			p("false")
+		}
 	}
 	p("]\n\n")
 	p("/-- rule ids the tree walker of parser.go switches on (absent rule = id of no node) -/\n")
